@@ -396,7 +396,10 @@ impl<'t, 'a> Gen<'t, 'a> {
     fn fresh_name(&mut self) -> String {
         let pool: &[&str] = if self.prof.exotic { &EXOTIC_NAMES } else { &NAMES };
         let cand = pool[self.t.pick(pool.len())].to_string();
-        if cand == "this" || self.defined_in_current_scope(&cand) || self.fun_names.contains(&cand) || self.assigning.contains(&cand) {
+        // functions and variables live in separate name spaces: a variable may be named like a
+        // function (most of the time it is not, to keep programs readable)
+        let clashes_with_function = self.fun_names.contains(&cand) && !self.t.chance(64);
+        if cand == "this" || self.defined_in_current_scope(&cand) || clashes_with_function || self.assigning.contains(&cand) {
             return self.unique("v");
         }
         // a global must not clash with names already global (same scope) - checked above
@@ -823,10 +826,13 @@ impl<'t, 'a> Gen<'t, 'a> {
         let name = loop {
             let n = if self.prof.exotic && self.t.flag() {
                 format!("{}_f", EXOTIC_NAMES[self.t.pick(EXOTIC_NAMES.len())])
+            } else if self.t.chance(40) {
+                // a function named like a variable may be (or become) in sight
+                NAMES[self.t.pick(NAMES.len())].to_string()
             } else {
                 self.unique("f")
             };
-            if !self.fun_names.contains(&n) && !self.globals.iter().any(|g| g.name == n) {
+            if !self.fun_names.contains(&n) {
                 break n;
             }
         };
